@@ -35,8 +35,9 @@ def start_linecov(pkg):
 
 def main():
     prop, fin, fout = sys.argv[1:4]
+    import os
+    hits = start_linecov(os.path.join(os.path.realpath(os.environ.get("PYXAB_REPO", "/repo")), "PyXAB"))
     from . import common as C
-    hits = start_linecov(C.PKG)
     from .runner import load_prop
     import numpy as np
     np.seterr(all="ignore")
